@@ -36,10 +36,10 @@ const (
 
 type Case struct {
 	N     int      `json:"n"`
-	IDs   []string `json:"ids,omitempty"`   // default m0, m1, ...
-	Parts []int32  `json:"parts"`           // partitions of ta, tb
-	Subs  []uint8  `json:"subs"`            // per member: bit t = RealTopics[t], GhostBit = tz
-	Gens  []int32  `json:"gens"`            // per member generation sent in JoinGroup metadata
+	IDs   []string `json:"ids,omitempty"` // default m0, m1, ...
+	Parts []int32  `json:"parts"`         // partitions of ta, tb
+	Subs  []uint8  `json:"subs"`          // per member: bit t = RealTopics[t], GhostBit = tz
+	Gens  []int32  `json:"gens"`          // per member generation sent in JoinGroup metadata
 	// Owners[flat partition] = indexes of the members claiming it (0, 1 or 2).
 	Owners [][]int `json:"owners"`
 	// Ghost: member 0 additionally claims ta[Parts[0]] (a partition that
